@@ -38,7 +38,8 @@ import time
 import types
 
 STREAMS = ['bytes-helpers', 'spec-table', 'scripted-exhaustive', 'scripted-random', 'scripted-boundary',
-           'scripted-malformed', 'real-mechs', 'real-interleaved', 'real-overlapping', 'config-sequences']
+           'scripted-malformed', 'real-mechs', 'real-interleaved', 'real-overlapping', 'config-sequences',
+           'bus-scripted', 'bus-external', 'bus-cookie']
 THEOREMS = ['authenticated_only_after_accept', 'refines_spec_server', 'authenticated_iff_spec',
             'mechanism_consulted_iff_table_asks', 'real_mechanisms_never_raise', 'closes_exactly_when',
             'no_line_processed_after_close', 'conforming_client_accepted', 'conforming_client_accepted_from',
@@ -782,7 +783,7 @@ _SEEN = {}
 def report(ctx, key, what, inp, observed=None, expected=None):
     """ctx.violation, but after the first 20 reports of a key only for inputs smaller than the best so far
     (ctx.violation serialises both inputs on every call)."""
-    size = sum(len(r) for r in inp.get('reads', [])) + sum(len(r) for r in inp.get('lines', [])) + 40 * len(inp.get('actions', [])) + len(inp.get('schedule', ''))
+    size = sum(len(r) for r in inp.get('reads', [])) + sum(len(r) for r in inp.get('lines', [])) + 40 * len(inp.get('actions', [])) + len(inp.get('schedule', '')) + len(inp.get('events', ''))
     st = _SEEN.setdefault((id(ctx), key), [0, size])
     st[0] += 1
     if st[0] > 20 and size >= st[1]:
@@ -1229,15 +1230,34 @@ def rnd_bytes(k, n):
     return bytes((k * 131 + j * 17 + 7) % 256 for j in range(n))
 
 
+def _scratch_dir():
+    """Where the temporary HOMEs live: a memory file system when there is one (every cookie operation renames a file;
+    on a busy disk that is 2 ms each), otherwise the default."""
+    if 'scratch' not in _IMPL:
+        d = '/dev/shm'
+        ok = os.path.isdir(d) and os.access(d, os.W_OK | os.X_OK)
+        if ok:
+            try:
+                t = tempfile.mkdtemp(prefix='c06-probe-', dir=d)
+                os.mkdir(os.path.join(t, 'k'), 0o700)
+                ok = (os.lstat(os.path.join(t, 'k')).st_mode & 0o777) == 0o700
+                shutil.rmtree(t, ignore_errors=True)
+            except OSError:
+                ok = False
+        _IMPL['scratch'] = d if ok else None
+    return _IMPL['scratch']
+
+
 class RealEnv:
     """Temporary HOMEs + patched pwd / os.urandom / hashlib for one session of the real mechanisms."""
 
     def __init__(self, spec):
         self.spec = spec
-        self.root = tempfile.mkdtemp(prefix='c06-')
+        self.root = tempfile.mkdtemp(prefix='c06-', dir=_scratch_dir())
         self.sha = {}
         self.calls = 0
         self.now = 1700000000           # time.time() is patched: whole seconds, or + 0.5 when spec['frac']
+        self.now0 = self.now            # the clock at the start (bus histories advance `now`)
         self.frac = bool(spec.get('frac'))
 
     def home(self, h):
@@ -1380,18 +1400,18 @@ class RealEnv:
 
     def model_env(self):
         s = self.spec
-        creds = '-' if s['creds'] is None else str(s['creds'])
+        creds = '-' if s.get('creds') is None else str(s['creds'])
         passwd = ','.join('%s:%d:%d:%s' % (hx(u[0].encode()), u[1], u[2], hx(u[3].encode())) for u in s['users']) or '-'
         dirs = ','.join('%s:%s' % (hx(h.encode()), 'g' if st == 'good' else 'b')
                         for h, st in sorted(s['dirs'].items()) if st != 'absent') or '-'
         files = ','.join('%s:%s' % (hx(h.encode()),
-                                    '/'.join('%d.%d.%s' % (cid, self.now - age, hx(cookie.encode())) for cid, age, cookie in ents))
+                                    '/'.join('%d.%d.%s' % (cid, self.now0 - age, hx(cookie.encode())) for cid, age, cookie in ents))
                          for h, ents in sorted(s['files'].items())) or '-'
         sha = dict(self.sha)
         for k in range(16):
             sha.setdefault(rnd_bytes(k, 8), hashlib.sha1(rnd_bytes(k, 8)).digest())
         shas = ','.join('%s:%s' % (hx(a), hx(b)) for a, b in sorted(sha.items())) or '-'
-        return ';'.join([creds, passwd, dirs, files, str(self.now) + ('+' if self.frac else ''),
+        return ';'.join([creds, passwd, dirs, files, str(self.now0) + ('+' if self.frac else ''),
                          hx(self.ctxname.encode()), shas])
 
 
@@ -1879,6 +1899,564 @@ def is_second_step(tr, k):
     return False
 
 
+# ===================================================================== several live connections of one bus
+
+"""A `bus` case is ONE history over several connections of one bus process:
+
+    {'kind': 'bus', 'mode': 'scripted' | 'real' | 'plain', 'env': <RealEnv spec, real/plain only>,
+     'conns': [{'script': [...], 'offer': None} | {'creds': uid or None, 'user': text}, ...],
+     'events': 'c0 c1 L0:<hex> u1:<hex> a0 r0 w1:wronghash b0 l1 t31 ...'}
+
+events (the digit string is the connection):
+    c<i>           makeConnection of connection i (a fresh BusProtocol of the session class)
+    l<i>           connectionLost on connection i ("dropped": no CANCEL, nothing is sent); nothing is delivered afterwards
+    t<n>           the clock advances n seconds (real / plain)
+    u<i>:<hex>     these bytes arrive on connection i as one read (any cut, also inside a line)
+    L<i>:<hex>     the line + CRLF as one read (preceded by the NUL byte when it is the first thing i sends)
+    n<i> E<i> b<i> x<i> D<i>      the lines AUTH ANONYMOUS / ERROR / BEGIN / CANCEL / DATA
+    e<i>[:<claimed>]              AUTH EXTERNAL [hex(claimed)]
+    a<i>           AUTH DBUS_COOKIE_SHA1 <user of i>; when a challenge comes back the simulated client looks the cookie up
+                   at once (first entry with the announced id in the user's keyring file, as the specification says)
+    r<i>           the right response to the challenge i holds (DATA when it holds none)
+    w<i>[:<var>]   a wrong response (wronghash, wrongcc, wrongcookie, othercookie, trunc39, three, one, empty)
+
+Every connection is judged on ITS byte stream by the full oracle (state table, closing rules, safety monitor, hand-off),
+and by the acceptance clauses of the statement applied per connection:
+  * ANONYMOUS never rejects; EXTERNAL never rejects a connection whose OWN peer credentials have a passwd entry (and that
+    claims no or its own identity), never accepts one whose own credentials are missing / unknown, and the identity the
+    bus records for a connection authenticated through EXTERNAL is the one of ITS credentials;
+  * the right response to a pending DBUS_COOKIE_SHA1 challenge is answered OK, a wrong one never is.
+When an exception escapes on one connection the reactor drops THAT connection; the history goes on for the others.
+The credentials of a connection are never planted: with the SO_PEERCRED switch on they come from that connection's
+(fake) socket through the code's own getsockopt call; with it off no connection has any.  Only when the tree has no such
+switch at all (`gate` = never) are they put into `_unix_creds` by hand (`planted`).
+"""
+
+WRONG_VARIANTS = ['wronghash', 'wrongcc', 'wrongcookie', 'othercookie', 'trunc39', 'three', 'one', 'empty']
+
+
+def _uid_name(spec, uid):
+    """pw_name of the first passwd entry with that uid (None: no entry)."""
+    if uid is None or uid < 0:
+        return None
+    for u in spec['users']:
+        if u[1] == uid:
+            return u[0]
+    return None
+
+
+class _Null:
+    def __enter__(self):
+        return None
+
+    def __exit__(self, *a):
+        return False
+
+
+def run_bus(case):
+    """Run one history.  Returns (conns, model_line, impl_line, findings) - conns: per connection dict(stream, obs, tr,
+    crashed, offered, ...); findings: [(key, what, observed, expected)] from the acceptance clauses."""
+    I = impl()
+    mode = case['mode']
+    spec = case.get('env')
+    cds = case['conns']
+    real = mode != 'scripted'
+    findings = []
+    mev = []                      # events for the model
+    from twisted.python.failure import Failure
+    from twisted.internet.error import ConnectionDone
+    names = offered_names()
+    with (RealEnv(spec) if real else _Null()) as env, (RecordReal() if mode == 'plain' else _Null()):
+        linux = bool(real and spec.get('linux'))
+        planted = False
+        if real:
+            got = set_peercred(linux)
+            if linux and not got:
+                linux, planted = False, True          # no switch in this tree: credentials by hand, as a last resort
+            elif not linux and not got:
+                linux = True                          # the lookup cannot be switched off: it runs against the sockets
+        else:
+            set_peercred(False)
+        sess = {}
+
+        def connect(i):
+            cd = cds[i]
+            proto, t, tr = make_session(mode, script=cd.get('script'), offer=[n for n in names if n.decode() in cd['offer']]
+                                        if cd.get('offer') else None, setup='none')
+            creds = cd.get('creds')
+            eff = None
+            if real:
+                tup = None if creds is None else (4242 + i, creds, cd.get('gid', 77 + i))
+                if linux:
+                    t.socket = fake_socket(tup)
+                    eff = creds if creds is not None else -1
+                elif planted and tup is not None:
+                    proto._unix_creds = tup
+                    eff = creds
+            elif I['gate'][0] == 'always':
+                t.socket = fake_socket(None)
+            sess[i] = {'proto': proto, 't': t, 'tr': tr, 'crashed': None, 'lost': False, 'stream': b'', 'eff': eff,
+                       'mi': len(sess),            # the model numbers connections in the order they were made
+                       'resp': None, 'pending': False, 'user': cd.get('user'), 'sent_any': False,
+                       'offered': [n for n in names if (not cd.get('offer')) or n.decode() in cd['offer']]}
+            mev.append('c:%s' % ('-' if eff is None else eff) if real else 'c')
+
+        def lose(i):
+            x = sess[i]
+            if x['lost']:
+                return
+            x['lost'] = True
+            x['pending'] = False
+            activate(x['proto'])
+            try:
+                x['proto'].connectionLost(Failure(ConnectionDone()))
+            except Exception as e:                       # outside C06; the history goes on
+                x['lost_raised'] = type(e).__name__
+            mev.append('l%d' % x['mi'])
+
+        def deliver(i, data):
+            """One read for connection i; returns what the bus wrote in answer."""
+            x = sess[i]
+            if x['lost'] or x['crashed'] is not None or not data:
+                return b''
+            before = len(x['t'].value())
+            x['stream'] += data
+            x['sent_any'] = True
+            mev.append('r%d:%s' % (x['mi'], hx(data)))
+            x['crashed'] = feed(x['proto'], x['t'], [data])
+            out = x['t'].value()[before:]
+            if x['crashed'] is not None:
+                lose(i)                                  # what the reactor does with a connection whose dataReceived raised
+            return out
+
+        def line(i, ln):
+            x = sess[i]
+            return deliver(i, (b'' if x['sent_any'] else b'\0') + ln + b'\r\n')
+
+        def cookie_of(x, cid):
+            for ent in (env.file_entries(env.home_of_user(x['user'])) or []):
+                if ent[0] == cid:
+                    return ent[2]
+            return None
+
+        for tok in case['events'].split():
+            op = tok[0]
+            head, _, arg = tok[1:].partition(':')
+            if op == 't':
+                env.now += int(head)
+                mev.append('t%d' % int(head))
+                for x in sess.values():
+                    x['ticks'] = x.get('ticks', 0) + int(head)
+                continue
+            i = int(head)
+            if op == 'c':
+                connect(i)
+                continue
+            if i not in sess:
+                connect(i)
+            x = sess[i]
+            if op == 'l':
+                lose(i)
+            elif op == 'u':
+                deliver(i, binascii.unhexlify(arg))
+            elif op == 'L':
+                line(i, binascii.unhexlify(arg) if arg and arg != '-' else b'')
+            elif op in 'nEbxD':
+                line(i, {'n': b'AUTH ANONYMOUS', 'E': b'ERROR', 'b': b'BEGIN', 'x': b'CANCEL', 'D': b'DATA'}[op])
+                x['pending'] = False
+            elif op == 'e':
+                line(i, b'AUTH EXTERNAL' + ((b' ' + binascii.hexlify(arg.encode('ascii'))) if arg else b''))
+                x['pending'] = False
+                if arg and _uid_name(spec, x['eff']) is not None and arg != str(x['eff']):
+                    x['claims_other'] = True
+            elif op == 'a':
+                x['pending'], x['resp'] = False, None
+                out = line(i, b'AUTH DBUS_COOKIE_SHA1 ' + binascii.hexlify((x['user'] or '').encode('ascii')))
+                first = out.split(b'\r\n')[0]
+                if first.startswith(b'DATA '):
+                    try:
+                        ctxn, cid, chal = binascii.unhexlify(first.split(b' ', 1)[1].strip()).split()
+                    except Exception:
+                        ctxn = cid = chal = None
+                    x['pending'], x['ticks'] = True, 0
+                    x['chal'], x['cid'] = chal, cid
+                    x['cookie'] = cookie_of(x, cid) if cid is not None else None
+                    if x['cookie'] is None:
+                        findings.append(('cookie-right-response-rejected', 'the cookie id announced to connection %d (%r) is '
+                                         'not in the keyring file of %r' % (i, cid, x['user']), hx(first),
+                                         'an entry with the announced id'))
+                    else:
+                        digest = binascii.hexlify(hashlib.sha1(chal + b':' + CC + b':' + x['cookie']).digest())
+                        x['resp'] = CC + b' ' + digest
+                        th = chal + b':' + CC + b':' + x['cookie']
+                        env.sha[th] = hashlib.sha1(th).digest()
+            elif op in 'rw':
+                was_pending, resp = x['pending'], x['resp']
+                x['pending'] = False
+                if op == 'r' or resp is None:
+                    payload = resp
+                else:
+                    cc, digest = resp.split()
+                    v = arg or 'wronghash'
+                    if v == 'wronghash':
+                        d = bytearray(digest)
+                        d[5] = ord('0') if d[5] != ord('0') else ord('1')
+                        payload = cc + b' ' + bytes(d)
+                    elif v == 'wrongcc':
+                        payload = b'deadbeef ' + digest
+                    elif v in ('wrongcookie', 'othercookie'):
+                        other = b'00' * 24
+                        if v == 'othercookie':
+                            for ent in (env.file_entries(env.home_of_user(x['user'])) or []):
+                                if ent[2] != x['cookie']:
+                                    other = ent[2]
+                                    break
+                        payload = cc + b' ' + binascii.hexlify(hashlib.sha1(x['chal'] + b':' + cc + b':' + other).digest())
+                    elif v.startswith('trunc'):
+                        payload = cc + b' ' + digest[:int(v[5:])]
+                    elif v == 'three':
+                        payload = cc + b' ' + digest + b' x'
+                    elif v == 'one':
+                        payload = digest
+                    else:
+                        payload = b''
+                    toks = payload.split()
+                    if len(toks) == 2:
+                        th = x['chal'] + b':' + toks[0] + b':' + x['cookie']
+                        env.sha[th] = hashlib.sha1(th).digest()
+                was_open = not x['t'].disconnecting
+                out = line(i, (b'DATA ' + binascii.hexlify(payload)) if payload else b'DATA')
+                ok = out.startswith(b'OK ')
+                o = 'connection %d answered %s' % (i, hxs([p for p in out.split(b'\r\n') if p]))
+                if x['crashed'] is None and was_pending and was_open and resp is not None:
+                    if op == 'r' and not ok and x.get('ticks', 0) < 30:
+                        findings.append(('cookie-right-response-rejected', 'connection %d (user %r) answered its pending '
+                                         'DBUS_COOKIE_SHA1 challenge with sha1(challenge:cc:cookie) for the cookie stored '
+                                         'under the announced id and was not answered OK' % (i, x['user']), o, 'OK <guid>'))
+                    if op == 'w' and ok:
+                        findings.append(('wrong-cookie-accepted', 'connection %d (user %r): the wrong response (%s) to its '
+                                         'DBUS_COOKIE_SHA1 challenge was answered OK' % (i, x['user'], arg or 'wronghash'),
+                                         o, 'REJECTED'))
+            else:
+                raise ValueError('bus event %r' % tok)
+        # ---- observations
+        conns = []
+        for i in sorted(sess, key=lambda j: sess[j]['mi']):
+            x = sess[i]
+            x['index'] = i
+            attach_replies(x['tr'], x['t'])
+            x['obs'] = observe(x['proto'], x['t'], x['tr'], x['crashed'])
+            conns.append(x)
+        if real:
+            fs = env.fs_obs()
+            impl_line = ' | '.join(fmt_obs(x['obs']) for x in conns) + ' || files=%s dirs=%s rnd=%d' % (fs[0], fs[1], env.calls)
+            model_line = 'M %s %s %s' % (hx(GUID), env.model_env(), ' '.join(mev))
+        else:
+            impl_line = ' | '.join(fmt_obs(x['obs'], extra=('cancels', 'steps')) for x in conns)
+            scripts = '/'.join((','.join(s.replace(':', '') for s in cds[x['index']].get('script') or []) or '-') for x in conns)
+            model_line = 'N %s %s %s' % (hx(GUID), scripts, ' '.join(mev))
+        if any(cds[i].get('offer') for i in sess) or planted:
+            model_line = None          # restricted tables / planted credentials are outside the bus model
+        # ---- the acceptance clauses that speak about mechanisms, per connection
+        for i in sorted(sess):
+            x = sess[i]
+            own = _uid_name(spec, x['eff']) if real else None
+            last_accept = None
+            for h in x['tr'].handed:
+                for name, o in h['outcomes']:
+                    if o == 'A':
+                        last_accept = name
+                    if not real:
+                        continue
+                    o1 = 'connection %d (peer credentials uid %s) line %r: %s -> %s' % (i, x['eff'], h['line'][:50], name.decode(), o)
+                    if name == b'ANONYMOUS' and o == 'R':
+                        findings.append(('anonymous-client-not-accepted', 'ANONYMOUS rejected connection %d' % i, o1, 'OK'))
+                    if name == b'EXTERNAL':
+                        if own is not None and o == 'R' and not x.get('claims_other'):
+                            findings.append(('external-client-not-accepted', 'EXTERNAL rejected connection %d although THIS '
+                                             'connection\'s peer credentials (uid %s = %s) have a passwd entry'
+                                             % (i, x['eff'], own), o1, 'DATA / OK'))
+                        if own is None and o == 'A':
+                            findings.append(('external-accepted-without-credentials', 'EXTERNAL accepted connection %d '
+                                             'although THIS connection has no usable peer credentials (uid %s)'
+                                             % (i, x['eff']), o1, 'REJECTED'))
+            if real and x['obs']['auth'] and last_accept == b'EXTERNAL':
+                g = x['proto'].guid
+                if own is not None and _b(g) != own.encode():
+                    findings.append(('external-identity-not-this-connection', 'connection %d was authenticated through '
+                                     'EXTERNAL; the identity the bus recorded is not the one of THIS connection\'s peer '
+                                     'credentials (uid %s)' % (i, x['eff']), repr(g), own))
+        return conns, model_line, impl_line, findings
+
+
+def judge_bus(ctx, stream_name, case, pending):
+    conns, model_line, impl_line, findings = run_bus(case)
+    ctx.impl_trace()
+    mode = case['mode']
+    ctx.case(stream_name, sample=case if len(case['events']) < 600 else None,
+             nontrivial=any(x['tr'].steps or x['obs']['closed'] for x in conns))
+    for x in conns:
+        i = x['index']
+        offered = x['offered']
+        for key, what, observed, expected in oracle(x['stream'], x['obs'], x['tr'], x['crashed'], offered, REJECT_LIMIT,
+                                                    b'REJECTED ' + b' '.join(offered)):
+            report(ctx, key, 'connection %d of %d on one bus: %s' % (i, len(conns), what), case, observed, expected)
+    for key, what, observed, expected in findings:
+        report(ctx, key, what, case, observed, expected)
+    if model_line is not None:
+        pending.append((stream_name, case, model_line, impl_line))
+    ctx.stat('bus: mode=%s conns=%d' % (mode, min(len(conns), 5)))
+    for x in conns:
+        ctx.stat('bus: conn auth=%d closed=%d crashed=%d' % (x['obs']['auth'], x['obs']['closed'], x['obs']['crashed']))
+
+
+# ------------------------------------------------------------------ generators of bus histories
+
+def _chunks(*ls, **kw):
+    nul, tail = kw.get('nul', True), kw.get('tail', b'')
+    return [(b'\0' if nul and k == 0 else b'') + l + b'\r\n' for k, l in enumerate(ls)] + ([tail] if tail else [])
+
+
+# (name, outcome script of THIS connection, the reads it receives in order)
+SCRIPTED_TEMPLATES = [
+    ('cancel5-then-anonymous', ['C:6368'] * 5 + ['A'],
+     _chunks(*([b'AUTH EXTERNAL', b'CANCEL'] * 5 + [b'AUTH ANONYMOUS', b'BEGIN']))),
+    ('anonymous-begin-rest', ['A'], _chunks(b'AUTH ANONYMOUS', b'BEGIN', tail=b'l\x01\x00\x01rest')),
+    ('six-unknown-mechanisms', ['A'], _chunks(*([b'AUTH BOGUS'] * 6 + [b'AUTH ANONYMOUS', b'BEGIN']))),
+    ('challenge-then-data', ['C:6368', 'A'], _chunks(b'AUTH DBUS_COOKIE_SHA1 6162', b'DATA 6162', b'BEGIN')),
+    ('begin-out-of-turn', ['A'], _chunks(b'BEGIN', b'AUTH ANONYMOUS', b'BEGIN')),
+    ('accept-error-accept', ['A', 'A'], _chunks(b'AUTH ANONYMOUS', b'ERROR', b'AUTH EXTERNAL', b'BEGIN')),
+    ('no-nul', ['A'], _chunks(b'AUTH ANONYMOUS', b'BEGIN', nul=False)),
+    ('stays-waiting-for-begin', ['A'], _chunks(b'AUTH ANONYMOUS')),
+    ('stays-waiting-for-data', ['C:'], _chunks(b'AUTH EXTERNAL')),
+    ('long-line', ['A'], [b'\0' + b'A' * (MAXLINE + 1) + b'\r\n'] + _chunks(b'AUTH ANONYMOUS', b'BEGIN', nul=False)),
+    ('cut-inside-lines', ['A'], [b'\0AUTH ANONY', b'MOUS\r', b'\nBEG', b'IN\r\nl\x01']),
+    ('bad-utf8-word', ['A'], _chunks(b'AUTH ANONYMOUS', b'\xff\xfe', b'BEGIN')),
+    ('five-rejections-then-accept', ['R', 'R', 'A'],
+     _chunks(b'AUTH', b'ERROR', b'AUTH EXTERNAL', b'AUTH BOGUS', b'AUTH ANONYMOUS 6162', b'AUTH ANONYMOUS', b'BEGIN')),
+    ('cancel-at-the-limit', ['A', 'A'],
+     _chunks(*([b'AUTH BOGUS'] * 5 + [b'AUTH ANONYMOUS', b'CANCEL', b'AUTH ANONYMOUS', b'BEGIN']))),
+    ('unterminated-tail', [], [b'\0AUTH ANONYMOUS']),
+]
+
+
+def _alternate(a, b):
+    out = []
+    for k in range(max(len(a), len(b))):
+        out += a[k:k + 1] + b[k:k + 1]
+    return out
+
+
+def bus_scripted_pairs():
+    """Every ordered pair of conversation templates on two connections of one bus, under five interleavings."""
+    for na, sa, ca in SCRIPTED_TEMPLATES:
+        for nb, sb, cb in SCRIPTED_TEMPLATES:
+            A = ['u0:' + hx(c) for c in ca]
+            B = ['u1:' + hx(c) for c in cb]
+            h = (len(A) + 1) // 2
+            pats = [('both-live', ['c0', 'c1'] + A + B), ('late-connect', ['c0'] + A + ['c1'] + B),
+                    ('alternate', ['c0', 'c1'] + _alternate(A, B)), ('nested', ['c0', 'c1'] + A[:h] + B + A[h:]),
+                    ('lost-then-new', ['c0'] + A + ['l0', 'c1'] + B)]
+            for pn, ev in pats:
+                yield {'kind': 'bus', 'mode': 'scripted', 'what': '%s | %s, %s' % (na, nb, pn),
+                       'conns': [{'script': list(sa)}, {'script': list(sb)}], 'events': ' '.join(ev)}
+
+
+def _interleave(rng, queues, late=0.5, lose=0.3):
+    """A random interleaving of per-connection event queues; a connection is made at a random moment before its first
+    event (in index order), and sometimes lost after its last one."""
+    n = len(queues)
+    pos = [0] * n
+    made = 0
+    ev = []
+    first = rng.randint(1, n)
+    while made < first:
+        ev.append('c%d' % made)
+        made += 1
+    while True:
+        cand = [i for i in range(made) if pos[i] < len(queues[i])]
+        if made < n and (not cand or rng.random() < late / (1 + len(cand))):
+            ev.append('c%d' % made)
+            made += 1
+            continue
+        if not cand:
+            break
+        i = rng.choice(cand)
+        ev.append(queues[i][pos[i]])
+        pos[i] += 1
+        if pos[i] == len(queues[i]) and rng.random() < lose:
+            ev.append('l%d' % i)
+    return ev
+
+
+def gen_bus_scripted_random(rng):
+    n = rng.randint(2, 4)
+    conns, queues = [], []
+    for i in range(n):
+        if rng.random() < 0.5:
+            _, script, chunks = rng.choice(SCRIPTED_TEMPLATES)
+            if rng.random() < 0.4:
+                chunks = rng.choice(splittings(rng, b''.join(chunks), n_random=2, bytewise_max=0))
+        else:
+            script, stream = gen_random_conv(rng)
+            chunks = rng.choice(splittings(rng, stream, n_random=2, bytewise_max=24))
+        offer = None
+        if rng.random() < 0.1:
+            offer = rng.choice([['ANONYMOUS'], ['EXTERNAL'], ['EXTERNAL', 'DBUS_COOKIE_SHA1']])
+        conns.append({'script': list(script), 'offer': offer})
+        queues.append(['u%d:%s' % (i, hx(c)) for c in chunks if c])
+    return {'kind': 'bus', 'mode': 'scripted', 'conns': conns, 'events': ' '.join(_interleave(rng, queues))}
+
+
+def _real_spec(rng=None, linux=True, h1='absent', files=None, frac=False):
+    spec = {'creds': None, 'users': USERS, 'dirs': {'h1': h1, 'h2': 'absent'}, 'files': {}, 'frac': frac, 'linux': linux}
+    if files is not None:
+        spec['dirs']['h1'] = 'good'
+        spec['files']['h1'] = files
+    return spec
+
+
+def bus_external_chains():
+    """The identity chain: connections whose peers have different / no credentials, every one asking EXTERNAL, in several
+    interleavings; the credentials reach the bus through each connection's own socket."""
+    sets = [[1000, None, 1001], [None, 1000, 1001], [1001, 1000, None], [1000, 1001, None], [None, 1001, 1000],
+            [1001, None, 1000], [1000, 1000], [None, 1000], [1000, None], [1000, -1, 1001], [5555, 1000], [1001, 7, 5555]]
+    k = 0
+    for cs in sets:
+        n = len(cs)
+        idx = list(range(n))
+        conv = lambda i: ['e%d' % i, 'D%d' % i, 'b%d' % i]
+        allc = ['c%d' % i for i in idx]
+        pats = [
+            ('one-after-the-other', sum([['c%d' % i] + conv(i) for i in idx], [])),
+            ('lost-in-between', sum([['c%d' % i] + conv(i) + ['l%d' % i] for i in idx], [])),
+            ('all-live', allc + sum([conv(i) for i in idx], [])),
+            ('round-robin', allc + ['e%d' % i for i in idx] + ['D%d' % i for i in idx] + ['b%d' % i for i in idx]),
+            ('round-robin-reversed', allc + ['e%d' % i for i in reversed(idx)] + ['D%d' % i for i in idx]
+             + ['b%d' % i for i in reversed(idx)]),
+            ('nul-bytes-first', allc + ['u%d:00' % i for i in idx] + sum([conv(i) for i in reversed(idx)], [])),
+            ('retry-after-the-others', allc + ['e0', 'x0'] + sum([conv(i) for i in idx[1:]], []) + conv(0)),
+        ]
+        for pn, ev in pats:
+            k += 1
+            yield {'kind': 'bus', 'mode': 'plain' if k % 3 == 0 else 'real', 'what': 'EXTERNAL, peers %s, %s' % (cs, pn),
+                   'env': _real_spec(), 'conns': [{'creds': c, 'user': 'alice'} for c in cs], 'events': ' '.join(ev)}
+    # the platform without SO_PEERCRED: nobody has credentials, EXTERNAL accepts nobody
+    for ev in ('c0 c1 e0 e1 D0 D1 b0 b1 n0 b0', 'c0 e0 D0 c1 n1 b1 e0 b0'):
+        yield {'kind': 'bus', 'mode': 'real', 'what': 'EXTERNAL without SO_PEERCRED', 'env': _real_spec(linux=False),
+               'conns': [{'creds': 1000, 'user': 'alice'}, {'creds': 1001, 'user': 'bob'}], 'events': ev}
+
+
+EXT_PLANS = [['e', 'D', 'b'], ['e:own', 'D', 'b'], ['e:1000', 'D', 'b'], ['n', 'b'], ['a', 'r', 'b'], ['e', 'x', 'e', 'D', 'b'],
+             ['e', 'D', 'x', 'n', 'b'], ['E', 'e', 'D', 'b'], ['e', 'D', 'D', 'b'], ['e', 'b'], ['a', 'w', 'e', 'D', 'b'], ['e', 'D']]
+
+
+def gen_bus_external_random(rng):
+    n = rng.randint(2, 4)
+    conns, queues = [], []
+    for i in range(n):
+        creds = rng.choice([1000, None, 1001, -1, 5555, 7, 1000, 1001])
+        conns.append({'creds': creds, 'gid': rng.choice([77, 1000, 1001]), 'user': rng.choice(['alice', 'bob', '1000', '7'])})
+        q = []
+        for op in rng.choice(EXT_PLANS):
+            if op == 'e:own':
+                op = 'e' if creds is None else 'e'
+                q.append('e%d%s' % (i, '' if creds is None or creds < 0 else ':%d' % creds))
+                continue
+            head, _, arg = op.partition(':')
+            q.append('%s%d%s' % (head, i, (':' + arg) if arg else ''))
+        queues.append(q)
+    return {'kind': 'bus', 'mode': rng.choice(['real', 'real', 'plain']),
+            'env': _real_spec(linux=rng.random() < 0.9, h1=rng.choice(['absent', 'good']), frac=rng.random() < 0.5),
+            'conns': conns, 'events': ' '.join(_interleave(rng, queues))}
+
+
+COOKIE_HISTORIES = [
+    'a0 w0 a1 r1 b1',                                   # a failed exchange, then a good one on another connection
+    'a0 w0:othercookie a0 r0 b0 a1 r1 b1',
+    'a0 l0 a1 r1 b1',                                   # dropped without CANCEL, then a good one
+    'a0 a1 l0 r1 b1 a2 r2 b2',
+    'a0 l0 t31 a1 r1 b1 a2 r2 b2',                      # the dropped entry expires
+    'a0 r0 b0 t31 a1 a2 r2 b2 r1 b1',                   # time has passed since the process first looked at a clock
+    't31 a0 a1 r0 b0 r1 b1',
+    't60 a0 a1 a2 r1 b1 r0 b0 r2 b2',
+    'a0 x0 a1 w1:othercookie a2 r2 b2 a1 r1 b1',
+    'a0 a1 w0:othercookie r1 b1 a0 r0 b0',
+    'a0 a1 a2 l1 r0 b0 a3 r3 b3 r2 b2',
+    'a0 t7 a1 t7 r0 b0 t7 r1 b1',
+    'a0 w0 a0 w0:one a0 w0:three a0 w0:empty a0 w0:wrongcc a0 r0 b0 a1 r1 b1',       # five failures, then right
+    'a0 w0 a0 w0 a0 w0 a0 w0 a0 w0 a0 w0 a1 r1 b1 a0',                               # six: 0 is closed, 1 is not affected
+    'a0 r0 x0 a0 r0 b0 a1 r1 x1 a1 r1 b1',
+    'a0 a1 r0 r1 l0 b1 a2 r2 b2',
+]
+
+_CK = ['%048x' % (0x1111 * (k + 1) + (k << 90)) for k in range(6)]
+PRESEEDS = [None, [], [[5, 3, _CK[0]], [2, 10, _CK[1]]], [[1, 31, _CK[0]], [2, 5000, _CK[1]]],
+            [[3, 29, _CK[0]], [1, 30, _CK[1]], [7, -29, _CK[2]]], [[2, 0, _CK[0]], [1, 25, _CK[1]], [9, 60, _CK[2]]]]
+USER_SETS = [['alice'], ['alice', '7'], ['1000', 'alice', '7'], ['alice', 'bob']]
+
+
+def bus_cookie_histories():
+    k = 0
+    for hist in COOKIE_HISTORIES:
+        n = 1 + max(int(t[1:].split(':')[0]) for t in hist.split() if t[0] != 't')
+        for users in USER_SETS:
+            for pre in PRESEEDS:
+                k += 1
+                if (k % 3 and pre not in (None, PRESEEDS[2])):
+                    continue                       # every history with no file and the non-ascending one; the rest thinned
+                yield {'kind': 'bus', 'mode': 'plain' if k % 4 == 0 else 'real',
+                       'env': _real_spec(linux=False, files=pre, frac=bool(k % 2)),
+                       'conns': [{'creds': None, 'user': users[i % len(users)]} for i in range(n)], 'events': hist}
+
+
+def gen_bus_cookie_random(rng):
+    """Overlapping DBUS_COOKIE_SHA1 exchanges with failures, cancellations, dropped connections, the clock advancing, and
+    a keyring file that may hold entries from before.  The clock only jumps (>= 30 s) while no challenge is outstanding
+    on a live connection, and by small amounts (< 30 s in total) otherwise - the assumption on time of this harness."""
+    n = rng.randint(2, 5)
+    users = rng.choice(USER_SETS)
+    plans = []
+    for i in range(n):
+        p = []
+        for _ in range(rng.randint(0, 2)):
+            p += rng.choice([['a', 'w'], ['a', 'x'], ['a', 'r', 'x'], ['a', 'w:' + rng.choice(WRONG_VARIANTS)], ['a', 'E']])
+        p += rng.choice([['a', 'r', 'b'], ['a', 'r', 'b'], ['a', 'r', 'b'], ['a', 'l'], ['a', 'r', 'l'], ['a'], []])
+        plans.append(p)
+    pos = [0] * n
+    ev = []
+    outstanding = set()
+    small = 0
+    while True:
+        cand = [i for i in range(n) if pos[i] < len(plans[i])]
+        if not cand:
+            break
+        r = rng.random()
+        if r < 0.08 and not outstanding:
+            ev.append('t%d' % rng.choice([31, 31, 60, 30]))
+            continue
+        if r < 0.14 and small + 7 < 30:
+            small += 7
+            ev.append('t7')
+            continue
+        i = rng.choice(cand)
+        op = plans[i][pos[i]]
+        pos[i] += 1
+        head, _, arg = op.partition(':')
+        ev.append('%s%d%s' % (head, i, (':' + arg) if arg else ''))
+        if head == 'a':
+            outstanding.add(i)
+        else:
+            outstanding.discard(i)
+    pre = None
+    if rng.random() < 0.5:
+        ids = rng.sample(range(1, 12), rng.randint(0, 4))
+        pre = [[cid, rng.choice(AGES), '%048x' % rng.getrandbits(190)] for cid in ids]
+    return {'kind': 'bus', 'mode': rng.choice(['real', 'real', 'plain']),
+            'env': _real_spec(linux=rng.random() < 0.3, h1=rng.choice(['absent', 'good']), files=pre, frac=rng.random() < 0.5),
+            'conns': [{'creds': None, 'user': users[i % len(users)]} for i in range(n)], 'events': ' '.join(ev)}
+
+
 # ===================================================================== corpus / replay / run
 
 def run_case(ctx, case, pending, stream_name='corpus'):
@@ -1886,6 +2464,10 @@ def run_case(ctx, case, pending, stream_name='corpus'):
         plan = [(None if c is None else [x.encode() for x in c], [binascii.unhexlify(l) if l != '-' else b'' for l in cv])
                 for c, cv in case['plan']]
         judge_config_plan(ctx, case['mode'], plan)
+    elif case.get('kind') == 'bus':
+        judge_bus(ctx, stream_name if stream_name.startswith('bus-') else
+                  {'scripted': 'bus-scripted'}.get(case['mode'], 'bus-cookie' if ' a' in ' ' + case['events'] else 'bus-external'),
+                  case, pending)
     elif case.get('kind') == 'overlapping':
         judge_overlapping(ctx, case['schedule'], case['users'], case.get('dir', 'absent'), case.get('frac', False))
     elif case.get('kind') == 'interleaved':
@@ -1976,6 +2558,23 @@ def run(ctx):
     for _ in range(ctx.scale(quick=60, thorough=1500)):
         judge_overlapping(ctx, random_schedule(rng), rng.choice([['alice'], ['alice', '7'], ['1000', 'alice']]),
                           rng.choice(['absent', 'good']), rng.random() < 0.5)
+
+    # several live connections of one bus: per-connection scripts / credentials / cookie exchanges, interleaved
+    for case in bus_scripted_pairs():
+        judge_bus(ctx, 'bus-scripted', case, pending)
+    for _ in range(ctx.scale(quick=300, thorough=8000)):
+        judge_bus(ctx, 'bus-scripted', gen_bus_scripted_random(rng), pending)
+    flush_model(ctx, pending)
+    for case in bus_external_chains():
+        judge_bus(ctx, 'bus-external', case, pending)
+    for _ in range(ctx.scale(quick=150, thorough=4000)):
+        judge_bus(ctx, 'bus-external', gen_bus_external_random(rng), pending)
+    flush_model(ctx, pending)
+    for case in bus_cookie_histories():
+        judge_bus(ctx, 'bus-cookie', case, pending)
+    for _ in range(ctx.scale(quick=200, thorough=5000)):
+        judge_bus(ctx, 'bus-cookie', gen_bus_cookie_random(rng), pending)
+    flush_model(ctx, pending)
     ctx.exhaustive = False
 
 
